@@ -158,4 +158,36 @@ def iterateGo (lst : Option (List Bool)) : Except Fault Nat :=
 
 def rpcNameAsC14 (r : Bytes × Bytes × Bool) : Option (Bytes × Bytes) := if r.2.2 then some (r.1, r.2.1) else none
 
+/-! ## gRPC-WebSocket `gwsGRPCWebHandler.OnMessage` as a whole: the `!stream.receivedMD` branch in front (round 7)
+
+`gwsOnMessage` (Model.lean) is the function body AFTER the `if !stream.receivedMD { b.readMD(stream, data); return }` test.
+`readMD` performs no Go partial operation on client bytes (`slices.Concat(data, "\r\n")`, `textproto.ReadMIMEHeader` —
+abstracted as `mdOk`, exactly as in GB.C08.onMessage), it never touches `stream.events` (no `close`), and it writes
+`stream.closed = true` (fix D8b) or `stream.receivedMD = true`. -/
+
+open GB.C08 (WS WSEv) in
+/-- `gwsGRPCWebHandler.readMD`. -/
+def gwsReadMD (mdOk : Bytes → Bool) (st : WS) (data : Bytes) : Except Fault (WS × List WSEv) :=
+  -- mimeHeader, err := tp.ReadMIMEHeader(); if err != nil { stream.closed = true; sendTrailer(InvalidArgument); return }
+  if !mdOk data then .ok ({ st with closed := true }, [WSEv.badMD])
+  -- stream.receivedMD = true; stream.metadataCh <- metadata.MD(mimeHeader)
+  else .ok ({ st with receivedMD := true }, [WSEv.md data])
+
+open GB.C08 (WS WSEv) in
+/-- The whole `OnMessage`: closed ⇒ ignored; no metadata yet ⇒ `readMD`; else the frame code of `gwsOnMessage`. -/
+def gwsOnMessageFull (mdOk : Bytes → Bool) (st : WS) (data : Bytes) : Except Fault (WS × List WSEv) :=
+  if st.closed then .ok (st, [])
+  else if !st.receivedMD then gwsReadMD mdOk st data
+  else gwsOnMessage st data
+
+/-- A whole connection from ANY state (in particular the initial one, before the header message):
+    `close(stream.events)` at most once. Same shape as `gwsSession`, over the whole `OnMessage`. -/
+def gwsSessionFull (mdOk : Bytes → Bool) : GB.C08.WS → Bool → List Bytes → Except Fault (GB.C08.WS × Bool)
+  | st, evClosed, [] => .ok (st, evClosed)
+  | st, evClosed, d :: rest => do
+    let (st', evs) ← gwsOnMessageFull mdOk st d
+    if evs.contains GB.C08.WSEv.eof then
+      if evClosed then .error .closeOfClosedChannel else gwsSessionFull mdOk st' true rest
+    else gwsSessionFull mdOk st' evClosed rest
+
 end GB.C17
